@@ -201,6 +201,27 @@ impl Check for C11 {
                 return;
             }
             for c in &cps {
+                // reflections (negative determinant): mirror in x, mirror in y, axis swap
+                for xf in [[-1.0f32, 0., 0., 1., 36., 0.], [1., 0., 0., -1., 0., 36.], [0., 1., 1., 0., 0., 0.]] {
+                    let path = PathSpec::new(vec![POp::M(a.0, a.1), POp::Q(b.0, b.1, c.0, c.1)]);
+                    let st = StyleSpec { width: 4.0, cap: (s % 2) as u8, join: 1, miter: 4., dash: vec![], offset: 0. };
+                    l.states += 1;
+                    l.transitions += 2;
+                    l.traces += 1;
+                    l.evals += 1;
+                    match super::c04::eval_with(&path, &st, &xf, true) {
+                        Ok(stt) => {
+                            l.outcome(stt.hash);
+                            if stt.inside > 0 {
+                                l.nontrivial += 1;
+                            }
+                        }
+                        Err(mut v) => {
+                            v.sig = format!("stroke-is-image-of-user-space-stroke/{}", v.sig);
+                            run.report(2000 + s, v);
+                        }
+                    }
+                }
                 for k in [50.0f32, 0.02, 7.0, 0.0025] {
                     let xf: Xf = [1.0 / k, 0., 0., 1.0 / k, 0., 0.];
                     let path = PathSpec::new(vec![POp::M(a.0 * k, a.1 * k), POp::Q(b.0 * k, b.1 * k, c.0 * k, c.1 * k)]);
